@@ -220,6 +220,57 @@ def w_bonds(case, led):
                       f"bond_dims {got}, minimum covers {want}", (seed, chunk, t, algo), {"algo": algo}, dict(rep, bond_dims=got), nontrivial=hall_fails)
 
 
+def w_swap_bonds(case, led):
+    """after an exchange of neighbouring sites the operator is rebuilt on those two sites with the graph algorithm: no bond may exceed the number of distinct left /
+    right partial terms of the operator in the new order (reference: own Jordan-Wigner strings in the new order; plain permutation when swap_jw is off)"""
+    from renormalizer.model import Model, Op
+    from renormalizer.model.basis import BasisHalfSpin
+    from renormalizer.mps import Mpo
+    n, i, jw, seed = case
+    rng = np.random.default_rng([seed, n, i, int(jw), 2021])
+    t = {(a, b): float(rng.uniform(0.5, 1.5)) for a in range(n) for b in range(a + 1, n)}
+    mu = [float(rng.uniform(0.5, 1.5)) for _ in range(n)]
+
+    def jw_terms(order):
+        pos = {d: k for k, d in enumerate(order)}
+        out = []
+        for (a, b), v in t.items():
+            x, y = sorted((a, b), key=lambda d: pos[d])
+            between = [d for d in order if pos[x] < pos[d] < pos[y]]
+            for sa, sb in (("+", "-"), ("-", "+")):
+                ops = {x: sa, y: sb}
+                ops.update({d: "Z" for d in between})
+                out.append((v, ops))
+        for d in range(n):
+            out.append((mu[d], {d: "Z"}))
+        return out
+    order0 = list(range(n))
+    order1 = list(order0)
+    order1[i], order1[i + 1] = order1[i + 1], order1[i]
+    terms0 = jw_terms(order0)
+    ops0 = [Op(" ".join(o[d] for d in sorted(o)), sorted(o), f) for f, o in terms0]
+    key = ("swap-bonds", n, i, jw, seed)
+    rep = {"nsites": n, "swapped_sites": [i, i + 1], "swap_jw": jw, "symbols": "short (+, -, Z)", "seed": seed,
+           "how": "Jordan-Wigner chain with all-pairs hopping and on-site Z written with the short symbols; Mpo(model, algo='Hopcroft-Karp'); try_swap_site(new model, swap_jw)"}
+    try:
+        mpo = Mpo(Model([BasisHalfSpin(d) for d in order0], ops0), algo="Hopcroft-Karp")
+        mpo.try_swap_site(Model([BasisHalfSpin(d) for d in order1], []), swap_jw=jw)
+    except Exception as e:
+        led.ok("skipped:Mpo.try_swap_site:raised", "Mpo.try_swap_site", key + (type(e).__name__,), nontrivial=False)
+        return
+    dims = [int(m.shape[0]) for m in mpo] + [1]
+    # the operator in the new order: fermionic re-ordering (own strings along the new order) resp. the same strings permuted
+    new_terms = jw_terms(order1) if jw else terms0
+    strings = [tuple(o.get(d, "I") for d in order1) for f, o in new_terms]
+    bad = []
+    for cut in range(1, n):
+        bound = min(len({s_[:cut] for s_ in strings}), len({s_[cut:] for s_ in strings}))
+        if dims[cut] > bound:
+            bad.append((cut, dims[cut], bound))
+    led.check(not bad, "post:Mpo.try_swap_site:bonds_within_the_distinct_partial_terms", "swap_site",
+              f"after exchanging sites {i},{i + 1} (swap_jw={jw}): (cut, bond, distinct partial terms) = {bad}; bonds {dims}", key, {"swap_jw": bool(jw), "symbols": "short"}, rep)
+
+
 def replay_factory():
     def replay(cex, locals_, ob):
         g = cex.get("bigraph")
@@ -351,6 +402,7 @@ def check(run):
     from vk.rtc.harness import run_cases
     per = 12 if run.tier == "quick" else 60
     run_cases(run, w_bonds, [(run.seed, c, per) for c in range(16)])
+    run_cases(run, w_swap_bonds, [(n_, i_, jw_, run.seed) for n_ in (4, 5) for i_ in range(n_ - 1) for jw_ in (False, True)])
     run.sample({"bigraph": [[0, 1], [1], []], "algo": "Hungarian", "contract": "cover & |cover| = brute-force minimum & table lengths"})
     run.sample({"obligation": "inv-step:bipartite_vertex_cover:while#0:I3-visited-v-matched-partner-seen[partial]", "engine": "pyvc/z3"})
     run.rule = (f"all bipartite graphs with 1..{n} U vertices and 0..{n} V vertices (adjacency lists) x both algorithms; "
